@@ -67,6 +67,13 @@ THEOREMS = [
     "JanetModel.Props.C11.eof_outcome_any",
     "JanetModel.Props.C11.eof_clean_or_innermost",
     "JanetModel.Props.C11.finish_drains",
+    "JanetModel.Props.C11.phys_push_in_block",
+    "JanetModel.Props.C11.phys_step_refines",
+    "JanetModel.Props.C11.phys_step_safe",
+    "JanetModel.Props.C11.phys_feed_safe",
+    "JanetModel.Props.C11.phys_parseAll_safe",
+    "JanetModel.Props.C11.phys_history_safe",
+    "JanetModel.Props.C11.token_scratch_nonempty",
     "JanetModel.Props.C11.stack_push_in_bounds",
     "JanetModel.Props.C11.capacity_invariant",
     "JanetModel.Props.C11.consume_capacity",
